@@ -43,6 +43,9 @@ ASSUMPTIONS = [
     'socket.gethostbyname replaced by a fixed table that is the same at start and at finish (the source carries a FIXME about '
     'resolver instability; that is environmental, not a manifest)',
     'rrdutils.flush_noexc (unix socket of the rrd daemon) replaced by a no-op',
+    'finishes "via runtime" go through the real LinuxRuntime.finish / RuntimeBase.finish (s6-svok answers "not supervised"; '
+    'runtime.linux.runtime._load_config replaced: it uses configparser APIs removed in Python 3.12); a container whose '
+    'directory is gone is not finished again (what Cleanup.invoke does)',
     'run() itself is not executed (cgroups, local disk, image unpack, mount namespace, exec of the supervisor): the harness '
     'repeats its network-related statements in the same order around the real functions',
     'the network reply is read with ResourceServiceClient.wait(unique_name, timeout=0) instead of run()\'s wait(unique_name): '
